@@ -80,6 +80,25 @@ pub fn replay(args: &Args) {
         }
     }
 
+    // long operands chosen after the structure of the merge (runs around the powers of two, deep interleavings): both operand
+    // orders, sorted and reversed input vectors
+    if let Some(path) = args.opt.get("long") {
+        for case in read_json(path).as_array().unwrap() {
+            let (a, b, u) = (ints(&case["a"]), ints(&case["b"]), ints(&case["u"]));
+            let rev = |v: &Vec<i64>| v.iter().rev().copied().collect::<Vec<_>>();
+            for (x, y) in [(a.clone(), b.clone()), (b.clone(), a.clone()), (rev(&a), b.clone())] {
+                rep.evaluations += 1;
+                match guarded(|| UniqueSortedVec::from(x.clone()).union(UniqueSortedVec::from(y.clone()))) {
+                    Ok(got) if got.as_slice() == u.as_slice() => {}
+                    Ok(got) => rep.mismatch(json!({"op": "union_long", "x_len": x.len(), "y_len": y.len(), "x_first": x.first(), "y_first": y.first(),
+                        "expected_len": u.len(), "got_len": got.as_slice().len(),
+                        "first_difference": got.as_slice().iter().zip(u.iter()).position(|(g, e)| g != e)})),
+                    Err(p) => rep.mismatch(json!({"op": "union_long", "x_len": x.len(), "y_len": y.len(), "panic": p})),
+                }
+            }
+        }
+    }
+
     // contains / find_first_following for every element -1..6
     for (a, x) in subsets.iter().enumerate() {
         let ux = UniqueSortedVec::from(x.clone());
